@@ -1026,8 +1026,14 @@ func callBuiltin(caller *frame, fn *ssa.Builtin, args []value) value {
 		if a0, ok := args[0].(symBytes); ok {
 			return symBytes{i.L.concat(a0.Str, i.bytesToStr(args[1]))}
 		}
-		// append([]T, ...[]T) []T
-		return append(args[0].([]value), args[1].([]value)...)
+		// append([]T, ...[]T) []T; struct and array elements are values: the
+		// appended elements must not share their fields with the source
+		src := args[1].([]value)
+		dst := args[0].([]value)
+		for _, e := range src {
+			dst = append(dst, copyValue(e))
+		}
+		return dst
 
 	case "copy": // copy([]T, []T) int or copy([]byte, string) int
 		src := args[1]
@@ -1038,7 +1044,21 @@ func callBuiltin(caller *frame, fn *ssa.Builtin, args []value) value {
 		if isSym(src) || isSym(args[0]) {
 			panic(stop{kind: "unsupported", msg: "copy with symbolic-length operand"})
 		}
-		return copy(args[0].([]value), src.([]value))
+		dst, srcv := args[0].([]value), src.([]value)
+		n := len(dst)
+		if len(srcv) < n {
+			n = len(srcv)
+		}
+		if n > 0 && len(srcv) > 0 && &dst[0] != &srcv[0] {
+			tmp := make([]value, n)
+			for k := 0; k < n; k++ {
+				tmp[k] = copyValue(srcv[k])
+			}
+			copy(dst, tmp)
+		} else {
+			copy(dst, srcv)
+		}
+		return n
 
 	case "delete": // delete(map[K]value, K)
 		switch m := args[0].(type) {
@@ -1577,4 +1597,24 @@ func fandbits[F floaty](x, y F) F {
 		*(*uint64)(unsafe.Pointer(&x)) &= *(*uint64)(unsafe.Pointer(&y))
 	}
 	return x
+}
+
+// copyValue duplicates struct and array values (which the interpreter
+// represents by slices) so that the copy has fields of its own.
+func copyValue(v value) value {
+	switch x := v.(type) {
+	case structure:
+		c := make(structure, len(x))
+		for k := range x {
+			c[k] = copyValue(x[k])
+		}
+		return c
+	case array:
+		c := make(array, len(x))
+		for k := range x {
+			c[k] = copyValue(x[k])
+		}
+		return c
+	}
+	return v
 }
